@@ -50,22 +50,28 @@ func main() {
 	r.Fold(8, 3)
 	r.Assume("column types INT/BIGINT/TINYINT/DECIMAL(4,1)/VARCHAR(4) utf8mb4_0900_bin; PK none/single/composite, 0-2 unique keys, 0-2 secondary indexes; small key spaces")
 	r.Assume("not generated (MySQL leaves the outcome open or the semantics are not fixed here): LIMIT or multi-row key updates without a total ORDER BY, ON DUPLICATE KEY UPDATE with more than one conflicting row, unstorable values under IGNORE, two unstorable values in one row, assignments reading a column assigned earlier in the statement")
+	r.Assume("input classes of known findings via=domain are excluded only while their pinned witness still fails (see excluded_input_classes_still_defective)")
+	r.Assume("excluded input class (known finding unique-check-consults-row-deleted-earlier-in-statement, via=domain): statements that process a row agreeing on a unique (non-primary) key with a row version deleted or updated earlier in the same statement")
 	r.Assume("excluded input class (known finding update-int-out-of-range-clamped, via=domain): UPDATE / ON DUPLICATE KEY UPDATE assignments whose value is outside the integer column's range")
 	r.Assume("excluded input class (known finding where-ne-fractional-literal-on-indexed-decimal, via=domain): WHERE col <> literal with a fractional literal on a DECIMAL column that is part of an index")
 	r.Assume("expressions that overflow 64 bits are not generated (exact 64-bit arithmetic is C25's property)")
 	r.Assume("REPLACE of a row identical to the single row it replaces may report 1 or 2 affected rows (MySQL's handler reports 1, the documented sum is 2)")
+
+	// the pinned witnesses of the known findings are replayed first: the input classes excluded
+	// via=domain stay excluded only while their witness still fails
+	excl := pinned(r)
+	r.Extra("excluded_input_classes_still_defective", fmt.Sprintf("%+v", excl))
 
 	n := r.N(300, 8000)
 	cfg := &g8alib.HistoryCfg{Classify: classify}
 	r.Parallel("hist", n, func(i int) {
 		rnd := r.Rand("hist", i)
 		sc := g8alib.GenSchemaC13(rnd)
+		sc.T.Excl = excl
 		c := *cfg
 		c.Steps = 30 + rnd.Intn(51)
 		g8alib.RunHistory(r, rnd, sc, &c, "hist", i)
 	})
-
-	pinned(r)
 
 	// mechanism-reached floors: every statement kind and the outcome classes the property names
 	for _, k := range []string{"insert", "insert-ignore", "replace", "insert-odku", "update", "delete", "insert-select"} {
@@ -79,7 +85,7 @@ func main() {
 }
 
 // pinned replays the witnesses of the known findings on every run.
-func pinned(r *core.Run) {
+func pinned(r *core.Run) (excl g8alib.Known) {
 	// F15
 	{
 		e := core.NewEng("d")
@@ -108,6 +114,7 @@ func pinned(r *core.Run) {
 		res := s.Exec("UPDATE t SET ti = ti + 100 WHERE id = 1")
 		rows := core.SortedRows(s.Exec("SELECT * FROM t").Rows)
 		fails := !res.Failed()
+		excl.IntAssignClamp = fails
 		r.Pinned("update-int-out-of-range-clamped",
 			fmt.Sprintf("UPDATE t SET ti = ti + 100 on TINYINT 100 succeeds and stores %v (strict mode: error 1264, row unchanged)", rows), fails,
 			map[string]any{"setup": "CREATE TABLE t (id INT PRIMARY KEY, ti TINYINT); INSERT INTO t VALUES (1,100)", "sql": "UPDATE t SET ti = ti + 100 WHERE id = 1", "rows": rows, "expected": "error out-of-range; rows 1|100"})
@@ -132,6 +139,7 @@ func pinned(r *core.Run) {
 		if !fails && !(res.ErrClass() == "1062" && core.SameStrings(rows, []string{"1|10|0", "2|20|0"})) {
 			r.Violation("update:pinned-witness-behaves-differently", map[string]any{"setup": setup, "sql": q, "rows": rows, "err": fmt.Sprint(res.Err)})
 		}
+		excl.UniqueCheckDeadRow = fails
 		r.Pinned("unique-check-consults-row-deleted-earlier-in-statement",
 			fmt.Sprintf("%s succeeds and leaves two rows with k=10 in UNIQUE KEY uk: %v (reference: duplicate-key error, rows unchanged)", q, rows), fails,
 			map[string]any{"setup": setup, "sql": q, "rows": rows, "expected": "error 1062; rows 1|10|0 ; 2|20|0"})
@@ -181,8 +189,10 @@ func pinned(r *core.Run) {
 		ok, _ := res.Ok()
 		rows := core.SortedRows(s.Exec("SELECT * FROM u").Rows)
 		fails := !res.Failed() && !core.SameStrings(rows, []string{"1|2.5", "3|NULL"})
+		excl.NeFractionalDecimal = fails
 		r.Pinned("where-ne-fractional-literal-on-indexed-decimal", fmt.Sprintf("%s deletes %d rows and leaves %v (reference: 1 row deleted, rows 1|2.5 ; 3|NULL)", q, ok.RowsAffected, rows), fails,
 			map[string]any{"setup": setup, "sql": q, "rows": rows, "expected": "1|2.5 ; 3|NULL"})
 		e.Close()
 	}
+	return excl
 }
